@@ -473,7 +473,7 @@ func c08Atomic(rc *RuleCtx) {
 	// atomic even when a change removes the last sync/atomic call that revealed them
 	for _, fr := range []struct {
 		pkg, typ, field string
-		ptr              bool
+		ptr             bool
 	}{{"memfs", "MemFS", "lastId", true}, {"orefafs", "OrefaFS", "lastId", true}, {"avfs", "UMaskFn", "umask", false}} {
 		if n := rc.C.named(fr.pkg, fr.typ); n != nil {
 			atomicFields[fkey{n, fr.field, fr.ptr}] = true
